@@ -6,6 +6,7 @@ import Driver.Spork
 import Driver.Pool
 import Driver.Rewards
 import Driver.Consensus
+import Driver.RewardsNode
 /-
 One line per handler object. The first handler that understands a line answers it.
 -/
@@ -24,7 +25,8 @@ def registry : List Obj := [
   pureObj pureTicker,
   pureObj pureBeforeTime,
   pureObj pureMverify,
-  pureObj pureAddMomentum
+  pureObj pureAddMomentum,
+  rewardsNodeObj
 ]
 
 end ZV.Driver
